@@ -31,8 +31,11 @@ func genC01(r *sim.Rand, tier string) *sim.Case {
 	// key pattern: 0 = uniform; 1 = a window of two keys that moves on at every
 	// rotation, with an occasional wide write - L0 tables with disjoint and
 	// partially overlapping key ranges (what compaction planning has to get right).
-	pattern := r.Pick(0, 0, 1)
+	pattern := r.Pick(0, 0, 1, 2)
 	phase := 0
+	if pattern == 2 {
+		c.Ops = append(c.Ops, GenL0Layout(r, nkeys, 0)...)
+	}
 	pickKey := func() int64 {
 		if pattern == 0 || r.Intn(6) == 0 {
 			return int64(r.Intn(nkeys))
